@@ -280,6 +280,29 @@ class Gen:
         return 'x'.join(str(d) for d in self.shape) + ' ' + self.kind
 
 
+def repeat_index(lens):
+    """a list index WITH REPEATS over all but the last element whose selected rows add up to the
+    rows of the whole sequence: the view 'spans' the buffer by row count (not is_sliced_view) yet its
+    next offset lies inside the parent's rows"""
+    total = sum(lens)
+    n = len(lens)
+    if n < 2:
+        return None
+
+    def rec(left, start, acc):
+        if left == 0:
+            return acc if len(set(acc)) < len(acc) else None
+        if len(acc) >= 7:
+            return None
+        for k in range(start, n - 1):
+            if lens[k] <= left:
+                r = rec(left - lens[k], k, acc + [k])
+                if r:
+                    return r
+        return None
+    return rec(total, 0, [])
+
+
 def core_alphabet(g, tr, level):
     """Seed-independent alphabet for the exhaustive core, parameterised by the tracker state.
     level 0 = reduced (growth / views / assignment / in-place), level 1 = full."""
@@ -302,6 +325,9 @@ def core_alphabet(g, tr, level):
             ops.append(f'ext:{i}:{g.bpr(1)}:1:{enc_elems([g.elem(1, b), g.elem(2, b)])}')
         ops.append(f'get:{i}:{enc_slice(1, None, None)}')
         ops.append(f'get:{i}:{enc_slice(None, 1, None)}')
+        rep = repeat_index([len(tr.cells[c]) for c in s['c']])
+        if rep:
+            ops.append(f'get:{i}:l' + ''.join(f',{k}' for k in rep))
         if n:
             ops.append(f'seti:{i}:0:{0 if b else 77}')
             if not b:
@@ -368,6 +394,8 @@ def random_history(g, rng, depth, bytes_choices):
         els = [g.elem(rng.choice([0, 1, 1, 2, 3])) for _ in range(k)]
         push(f'new:{rng.choice(bytes_choices)}:{g.bpr(rng.randrange(2))}:{rng.choice([1, 1, 0])}:{enc_elems(els)}')
 
+    cur_lens = [[]]
+
     def rand_index(n):
         r = rng.random()
         if r < 0.5:
@@ -375,6 +403,9 @@ def random_history(g, rng, depth, bytes_choices):
             return enc_slice(rng.choice(c), rng.choice(c), rng.choice([None, None, 1, 2, -1, -2, 3, -3]))
         if r < 0.8:
             k = rng.randrange(0, 4)
+            rep = repeat_index(cur_lens[0]) if rng.random() < 0.3 else None
+            if rep:
+                return 'l' + ''.join(f',{x}' for x in rep)
             if n == 0:
                 return 'l' if rng.random() < 0.8 else 'l,0'
             return 'l' + ''.join(',' + str(rng.randrange(-n, n)) for _ in range(k))
@@ -389,6 +420,7 @@ def random_history(g, rng, depth, bytes_choices):
         i = rng.choice(live[-4:] + live[:1]) if rng.random() < 0.8 else rng.choice(live)
         s = tr.seqs[i]
         n = len(s['c'])
+        cur_lens[0] = [len(tr.cells[c]) for c in s['c']]
         b = s['isbool']
         room = n + 3 <= MAX_ELEMS
         if s['pend'] is not None:
@@ -678,3 +710,318 @@ def _check_history(toks, steps, lays, fails, known):
         prev = cur
         prev_lay = cur_lay
     return fails, known
+
+
+# ====================================================================== Tractogram layer
+def parse_tobs(s):
+    """'0=1.2/3|1001.1002/1003&1=-|~' -> {0: ([[1,2],[3]], [[1001,1002],[1003]]), 1: ([], None)}"""
+    out = {}
+    if not s:
+        return out
+    for part in s.split('&'):
+        i, _, body = part.partition('=')
+        a, _, b = body.partition('|')
+        out[int(i)] = (dec_elems(a), None if b == '~' else dec_elems(b))
+    return out
+
+
+class TTracker:
+    """Naive model of Tractogram histories: a tractogram is two Python lists of arrays (streamlines
+    'S' and data_per_point['c'] 'P'), an array is a cell id.  t[idx] shares cells with t (views);
+    t.copy(), t + other and what `+=` appends are new arrays.  The one place where the code shares
+    instead (left operand without the key: PerArrayDict.extend stores other's object) is modelled
+    as sharing and the cells are remembered in `kshare` (finding S-C15e)."""
+
+    def __init__(self):
+        self.cells = {}
+        self.ts = []          # dict(S=[ids], P=[ids] or None, alive)
+        self.kshare = set()
+
+    def cell(self, v):
+        k = len(self.cells)
+        self.cells[k] = list(v)
+        return k
+
+    def fresh(self, ids):
+        return [self.cell(self.cells[c]) for c in ids]
+
+    def vals(self, i, comp):
+        t = self.ts[i]
+        return None if t[comp] is None else [self.cells[c] for c in t[comp]]
+
+    def live(self):
+        return [i for i, t in enumerate(self.ts) if t['alive']]
+
+    def extend_into(self, dst, src):
+        dst['S'] = dst['S'] + self.fresh(src['S'])
+        if src['P'] is not None:
+            if dst['P'] is None:
+                dst['P'] = list(src['P'])          # self[key] = other[key]: a view of other's data
+                self.kshare |= set(src['P'])
+            else:
+                dst['P'] = dst['P'] + self.fresh(src['P'])
+
+    def apply(self, tok):
+        f = tok.split(':')
+        o = f[0]
+        T = self.ts
+        if o == 'tnew':
+            if f[1] == '-':
+                T.append(dict(S=[], P=None, alive=True))
+            else:
+                els = [e for e in dec_elems(f[1]) if e]
+                T.append(dict(S=[self.cell(e) for e in els], P=[self.cell([v + 1000 for v in e]) for e in els], alive=True))
+            return 'ok'
+        i = int(f[1])
+        t = T[i]
+        if o in ('tadd', 'tiadd'):
+            src = T[int(f[2])]
+            if o == 'tadd':
+                t = dict(S=self.fresh(t['S']), P=None if t['P'] is None else self.fresh(t['P']), alive=True)
+                T.append(t)
+            self.extend_into(t, dict(S=list(src['S']), P=None if src['P'] is None else list(src['P'])))
+            return 'ok'
+        if o == 'tcopy':
+            T.append(dict(S=self.fresh(t['S']), P=None if t['P'] is None else self.fresh(t['P']), alive=True))
+            return 'ok'
+        if o == 'tget':
+            ps = positions(len(t['S']), dec_index(f[2]))
+            if isinstance(ps, str):
+                return ps
+            T.append(dict(S=[t['S'][p] for p in ps], P=None if t['P'] is None else [t['P'][p] for p in ps], alive=True))
+            return 'ok'
+        if o == 'tdrop':
+            t['alive'] = False
+            return 'ok'
+        comp = 'P' if o in ('tsetp', 'tsetsp', 'tiopp') else 'S'
+        ids = t[comp]
+        if o in ('tset', 'tsetp'):
+            k = int(f[2])
+            if not -len(ids) <= k < len(ids):
+                return 'err:Index'
+            self.cells[ids[k]] = [int(f[3])] * len(self.cells[ids[k]])
+            return 'ok'
+        if o in ('tsets', 'tsetsp'):
+            ps = positions(len(ids), dec_index(f[2]))
+            if isinstance(ps, str):
+                return ps
+            for p in ps:
+                self.cells[ids[p]] = [int(f[3])] * len(self.cells[ids[p]])
+            return 'ok'
+        if o in ('tiop', 'tiopp'):
+            if not ids:
+                return 'err:StopIteration'
+            for c in dict.fromkeys(ids):
+                self.cells[c] = [apply_fn(f[2], v) for v in self.cells[c]]
+            return 'ok'
+        raise ValueError(tok)
+
+    def written(self, tok):
+        """cells written by tok (evaluated BEFORE apply)"""
+        f = tok.split(':')
+        o = f[0]
+        if o not in ('tset', 'tsetp', 'tsets', 'tsetsp', 'tiop', 'tiopp'):
+            return set()
+        t = self.ts[int(f[1])]
+        ids = t['P' if o in ('tsetp', 'tsetsp', 'tiopp') else 'S']
+        if o in ('tset', 'tsetp'):
+            k = int(f[2])
+            return {ids[k]} if -len(ids) <= k < len(ids) else set()
+        if o in ('tsets', 'tsetsp'):
+            ps = positions(len(ids), dec_index(f[2]))
+            return set() if isinstance(ps, str) else {ids[p] for p in ps}
+        return set(ids)
+
+
+def check_thistory(toks, steps):
+    """Direct predicate for the Tractogram layer, step by step on the implementation's own
+    observations (expected values are computed from the PREVIOUS observation, the tracker only
+    supplies which list entries are the same array in the list model):
+    * a created object (t + other, t.copy(), t[idx]) shows the list-model contents, `t += other`
+      gives t exactly its old contents followed by other's, nothing else changes (growth isolation);
+    * an assignment / in-place operator through t gives t exactly the list-model contents, and
+      changes NO tractogram that does not share arrays with t in the list model (a copy, a sum);
+      for tractograms that do share by lineage (t[idx]) each shared array either took the new
+      value or kept the old one (growth may have detached them, S-C15d), the others are unchanged."""
+    fails, known = [], {}
+    tr = TTracker()
+    prev = {}
+    try:
+        for k, tok in enumerate(toks):
+            res, _, obs_s = steps[k].partition('#')
+            cur = parse_tobs(obs_s)
+            f = tok.split(':')
+            o = f[0]
+            target = int(f[1]) if o != 'tnew' else None
+            old_ids = {i: (list(t['S']), None if t['P'] is None else list(t['P'])) for i, t in enumerate(tr.ts)}
+            wr = tr.written(tok)
+            exp_res = tr.apply(tok)
+            if exp_res != res:
+                fails.append(('result', k, f'{tok}: expected {exp_res}, got {res}'))
+                break
+            is_write = o in ('tset', 'tsetp', 'tsets', 'tsetsp', 'tiop', 'tiopp')
+            wcomp = 1 if o in ('tsetp', 'tsetsp', 'tiopp') else 0
+
+            def g(old):
+                if o in ('tiop', 'tiopp'):
+                    return [apply_fn(f[2], v) for v in old]
+                return [int(f[-1])] * len(old)
+
+            def cat2(a, b):
+                return a if b is None else b if a is None else a + b
+
+            new_idx = len(tr.ts) - 1 if (res == 'ok' and o in ('tnew', 'tadd', 'tcopy', 'tget')) else None
+            for i in tr.live():
+                if i not in cur:
+                    fails.append(('missing', k, f'{tok}: tractogram {i} not observed'))
+                    break
+                for ci, comp in enumerate(('S', 'P')):
+                    got = cur[i][ci]
+                    if res != 'ok':
+                        exp = [[x] for x in prev[i][ci]] if prev[i][ci] is not None else None
+                    elif i == new_idx:
+                        if o == 'tnew':
+                            els = [e for e in dec_elems(f[1]) if e] if f[1] != '-' else None
+                            e1 = els if ci == 0 else (None if els is None else [[v + 1000 for v in e] for e in els])
+                            if els is None and ci == 0:
+                                e1 = []
+                        elif o == 'tadd':
+                            e1 = cat2(prev[target][ci], prev[int(f[2])][ci])
+                        elif o == 'tcopy':
+                            e1 = prev[target][ci]
+                        else:
+                            ps = positions(len(prev[target][0]), dec_index(f[2]))
+                            e1 = None if prev[target][ci] is None else [prev[target][ci][p] for p in ps]
+                        exp = None if e1 is None else [[x] for x in e1]
+                    elif o == 'tiadd' and i == target:
+                        e1 = cat2(prev[i][ci], prev[int(f[2])][ci])
+                        exp = None if e1 is None else [[x] for x in e1]
+                    elif is_write and ci == wcomp and prev[i][ci] is not None:
+                        ids = old_ids[i][ci]
+                        exp = []
+                        for q, old in enumerate(prev[i][ci]):
+                            if ids[q] in wr:
+                                exp.append([g(old)] if i == target else [g(old), old])
+                            else:
+                                exp.append([old])
+                    else:
+                        exp = None if prev[i][ci] is None else [[x] for x in prev[i][ci]]
+                    ok = (got is None) == (exp is None)
+                    if ok and got is not None:
+                        ok = len(got) == len(exp) and all(gv in ev for gv, ev in zip(got, exp))
+                    if ok:
+                        if is_write and i != target and got is not None and any(
+                                len(ev) == 2 and gv == ev[1] and ev[0] != ev[1] for gv, ev in zip(got, exp)):
+                            known['S-C15d'] = known.get('S-C15d', 0) + 1
+                        continue
+                    cat = ('own_contents' if i == target or i == new_idx else
+                           'grow_isolated' if o in ('tiadd', 'tadd') else
+                           'derived_alters_source' if is_write else 'bystander_changed')
+                    fails.append((cat, k, f'{tok}: tractogram {i} {comp} expected {exp} got {got}'))
+                    break
+                if fails:
+                    break
+            # writes that reached another tractogram through the key-less-left-operand sharing
+            if is_write and res == 'ok' and wr & tr.kshare and not fails:
+                for i in tr.live():
+                    if i != target and i in old_ids and old_ids[i][1] and set(old_ids[i][1]) & wr & tr.kshare \
+                            and cur[i][1] != prev[i][1]:
+                        known['S-C15e'] = known.get('S-C15e', 0) + 1
+            if fails:
+                break
+            prev = cur
+    except Exception as e:
+        fails.append(('diverged', len(toks), 'expectation could not be evaluated: ' + repr(e)))
+    return fails, known
+
+
+def tract_core():
+    """seed-independent Tractogram histories: derive x (grow) x write, for several sources"""
+    out = []
+    inits = ['tnew:1.2/3/4.5.6', 'tnew:7/8/9']
+    writes = lambda d: [f'tset:{d}:0:77', f'tsetp:{d}:-1:88', f'tsets:{d}:s,n,n,2:55', f'tsetsp:{d}:s,n,n,n:66',
+                        f'tiop:{d}:add,100', f'tiopp:{d}:mul,2']
+    for init in inits:
+        # objects: 0 = source, 1 = Tractogram(), 2 = source[0:0], 3 = source[[]] (empty list index), 4 = another one
+        pre = [init, 'tnew:-', 'tget:0:s,0,0,n', 'tget:0:l', 'tnew:20.21/22']
+        derives = [['tadd:0:1'], ['tadd:0:2'], ['tadd:0:3'], ['tadd:0:4'], ['tadd:0:0'], ['tcopy:0'],
+                   ['tget:0:s,n,n,n'], ['tget:0:s,1,n,n'], ['tget:0:l,2,0'], ['tget:0:m,1,0,1'],
+                   ['tget:0:s,n,n,n', 'tadd:5:1'], ['tget:0:s,1,n,n', 'tadd:5:2'], ['tcopy:0', 'tget:5:s,n,2,n'],
+                   ['tadd:2:0'], ['tadd:2:1']]
+        for d in derives:
+            new = 5 + len(d) - 1
+            for grow in ([], [f'tiadd:{new}:1'], [f'tiadd:{new}:2'], [f'tiadd:{new}:4'], [f'tiadd:{new}:0'], ['tiadd:0:4']):
+                for w in writes(new) + writes(0):
+                    out.append(pre + d + grow + [w])
+    # the key-less left operand (finding S-C15e): Tractogram() + t shares t's per-point data
+    for w in ('tsetp:2:0:77', 'tiopp:2:add,5', 'tset:2:0:9'):
+        out.append(['tnew:1.2/3/4.5.6', 'tnew:-', 'tadd:1:0', w])
+    return out
+
+
+def tract_random(rng, depth):
+    tr = TTracker()
+    toks = []
+    cnt = [30]
+
+    def push(t):
+        toks.append(t)
+        tr.apply(t)
+
+    def elems():
+        els = []
+        for _ in range(rng.choice([1, 2, 3])):
+            n = rng.choice([1, 1, 2, 3])
+            els.append(list(range(cnt[0], cnt[0] + n)))
+            cnt[0] += n
+        return enc_elems(els)
+
+    push('tnew:' + elems())
+    push('tnew:-')
+    nmul = 0
+    for _ in range(depth):
+        live = tr.live()
+        keyed = [i for i in live if tr.ts[i]['P'] is not None]
+        if not keyed:
+            push('tnew:' + elems())
+            continue
+        i = rng.choice(keyed)
+        n = len(tr.ts[i]['S'])
+        kind = rng.choice(['add', 'add', 'iadd', 'copy', 'get', 'get', 'set', 'setp', 'sets', 'setsp', 'iop', 'iopp',
+                           'new', 'drop'])
+        if len(live) > 8 and kind in ('add', 'copy', 'get', 'new'):
+            kind = 'drop'
+        if kind in ('add', 'iadd'):
+            cands = [j for j in live if len(tr.ts[j]['S']) + n <= 10]
+            if cands:
+                j = rng.choice(cands + [1] * (1 in live))
+                push(f't{kind}:{i}:{j}')
+        elif kind == 'copy':
+            push(f'tcopy:{i}')
+        elif kind == 'get':
+            r = rng.random()
+            if r < 0.5:
+                c = [None] + list(range(-n - 1, n + 2))
+                push(f'tget:{i}:' + enc_slice(rng.choice(c), rng.choice(c), rng.choice([None, 1, 2, -1])))
+            elif r < 0.8:
+                ks = rng.sample(range(n), rng.randrange(0, n + 1)) if n else []
+                push(f'tget:{i}:l' + ''.join(f',{k}' for k in ks))
+            else:
+                push(f'tget:{i}:m' + ''.join(',' + str(rng.randrange(2)) for _ in range(n)))
+        elif kind in ('set', 'setp') and n:
+            push(f't{kind}:{i}:{rng.randrange(-n, n)}:{rng.randrange(200, 300)}')
+        elif kind in ('sets', 'setsp'):
+            c = [None] + list(range(-n - 1, n + 2))
+            push(f't{kind}:{i}:' + enc_slice(rng.choice(c), rng.choice(c), rng.choice([None, 1, 2, -1])) +
+                 f':{rng.randrange(300, 400)}')
+        elif kind in ('iop', 'iopp') and n:
+            if rng.random() < 0.3 and nmul < 3:
+                nmul += 1
+                push(f't{kind}:{i}:mul,2')
+            else:
+                push(f't{kind}:{i}:add,{rng.choice([10, 100])}')
+        elif kind == 'new':
+            push('tnew:' + elems())
+        elif kind == 'drop' and len(keyed) > 1 and i != 0:
+            push(f'tdrop:{i}')
+    return toks
